@@ -206,6 +206,7 @@ func TestC04Scalars(t *testing.T) {
 		var val any
 		var fresh func() any
 		var ref *ttlvref.Node
+		depthLabel := ""
 		if rapid.IntRange(0, 3).Draw(rt, "typedmask") == 0 {
 			v := gen.Int32(rt, "mask")
 			if rapid.Bool().Draw(rt, "anymask") {
@@ -239,11 +240,23 @@ func TestC04Scalars(t *testing.T) {
 			} else if _, isMask := pins.Masks[n.Tag]; isMask {
 				n.Tag = 0x420001 // a generic Integer under a mask tag is outside the typed mask domain
 			}
+			if rapid.IntRange(0, 7).Draw(rt, "nested") == 0 {
+				// the item sits at the bottom of a chain of nested structures (free-form content such as vendor
+				// extensions and custom attribute values may nest to any depth)
+				depth := rapid.SampledFrom([]int{1, 2, 8, 15, 16, 17, 18, 33, 63, 64, 65, 100, 300}).Draw(rt, "depth")
+				for i := 0; i < depth; i++ {
+					n = &ttlvref.Node{Tag: 0x540100 + i%200, Type: ttlvref.Structure, Kids: []*ttlvref.Node{n}}
+				}
+				depthLabel = fmt.Sprintf("nesting-depth=%d", depth)
+			}
 			ref = n
 			v := gen.ToValue(n)
 			val, fresh = v, func() any { return &ttlv.Value{} }
 		}
 		nt, labels := c04NonTrivial(enc, ref)
+		if depthLabel != "" {
+			labels = append(labels, depthLabel)
+		}
 		rec.Case(nt, append([]byte(enc), ttlvref.Write(ref)...), append(labels, "enc="+enc, "type="+ttlvref.TypeNames[ref.Type])...)
 		var doc []byte
 		c := func() c04Case {
